@@ -123,6 +123,12 @@ def run(ctx, rep):
                 rep.fail("oracle", "device-level-raised", sess_case(c), {"outcome": outcomes[k + 1]})
         elif mt[0] == "late-handshake-replies":
             # with cached credentials (histories of 6 operations) at most ONE of the two final exchanges may fail
+            if len(c[3]) == 8:
+                # the exchange after a pause longer than every reply delay: everything late has arrived and must have been discarded
+                o = outcomes[6]
+                if not (o[0] == 0 and len(o) > 1):
+                    rep.fail("oracle", "no-recovery-after:late-handshake-replies-on-a-new-connection", sess_case(c),
+                             {"outcomes": outcomes, "events": events})
             if len(c[3]) == 6:
                 ok = [o[0] == 0 and len(o) > 1 for o in outcomes]
                 if not ok[4] and not ok[5]:
